@@ -34,6 +34,11 @@ import RV.Base.Proto
     jstr-dumps <0|1> <s>*       -> = <s>*                         pyDumpsStr (ensure_ascii = 0|1), quotes included
     jstr-loads <s>*             -> = (ok:<s> | err:<Kind>)*       jsonLoadsStr on whole string tokens
     jstr-spell (<s>/<k.k.k|->)* -> = <s>*                         '"' ++ jsonSpell ks s ++ '"'
+    xtext-write <s>*            -> = <s>*                         xmlWriteText (character data as `_characters` spells it)
+    xattr-write <s>*            -> = <s>*                         quoteattr (quotes included)
+    xdoc-texts / xdoc-attrs <s>* -> XTEXT <s>* / XATTR <s>*        the same, for the harness to assemble a document from
+    xtext-read <s>*             -> = (ok:<s> | err:ParseError)*   xmlReadContent on the character data of one element
+    xattr-read <s>*             -> = (ok:<s> | err:ParseError)*   xmlReadAttr on a quoted attribute value
     ctext-parse <s>             -> ok <Table> | err:<Kind>        csvParse (a whole CSV document)
     ctext-of <s>                -> ok <Result> | err:<Kind>       ofCsv (csvParse text)
     ctext-write <Result>        -> CTEXT <s> | err:<Kind>         csvWrite (toCsv r)
@@ -229,6 +234,11 @@ def decQRows : Nat → List String → List (List (Bool × Str)) → Option (Lis
     decQRows k ws (fs :: acc)
   | _ + 1, [], _ => none
 
+def mapStrs (tag : String) (ws : List String) (f : Str → String) : String :=
+  match ws.mapM decStr with
+  | some ss => " ".intercalate (tag :: ss.map f)
+  | none => "bad-op"
+
 def withResult (ws : List String) (f : Result → String) : String :=
   match decResult ws with
   | some (r, []) => f r
@@ -321,6 +331,18 @@ def step (_ : Unit) : List String → Unit × String
     match ws.mapM decSpell with
     | some ps => ((), " ".intercalate ("=" :: ps.map (fun (s, ks) => encStr ('"' :: (jsonSpell ks s ++ ['"'])))))
     | none => ((), "bad-op")
+  | "xtext-write" :: ws => ((), mapStrs "=" ws (fun s => encStr (xmlWriteText s)))
+  | "xattr-write" :: ws => ((), mapStrs "=" ws (fun s => encStr (quoteattr s)))
+  | "xdoc-texts" :: ws => ((), mapStrs "XTEXT" ws (fun s => encStr (xmlWriteText s)))
+  | "xdoc-attrs" :: ws => ((), mapStrs "XATTR" ws (fun s => encStr (quoteattr s)))
+  | "xtext-read" :: ws => ((), mapStrs "=" ws (fun s =>
+      match xmlReadContent (s ++ ['<']) with
+      | some (x, ['<']) => "ok:" ++ encStr x
+      | _ => "err:ParseError"))
+  | "xattr-read" :: ws => ((), mapStrs "=" ws (fun s =>
+      match xmlReadAttr s with
+      | some (x, []) => "ok:" ++ encStr x
+      | _ => "err:ParseError"))
   | ["ctext-parse", w] =>
     match decStr w with
     | some t => ((), match csvParse t with | .ok tb => "ok " ++ encTable tb | .error e => "err:" ++ encErr e)
